@@ -554,6 +554,11 @@ impl Model {
     fn graph(&self) -> &Graph {
         &self.graph
     }
+
+    #[cfg(rten_verif)]
+    pub(crate) fn verif_graph(&self) -> &Graph {
+        &self.graph
+    }
 }
 
 impl std::fmt::Debug for Model {
